@@ -2479,6 +2479,7 @@ static Type check_expression_impl(ASTNode *expr, Environment *env) {
             /* Check object is not NULL */
             assert(expr->as.field_access.object != NULL);
             if (!expr->as.field_access.object) {
+                g_typecheck_error_diagnostics++;
                 safe_fprintf(stderr, "Error at line %d, column %d: NULL object in field access\n",
                         expr->line, expr->column);
                 return TYPE_UNKNOWN;
@@ -2489,6 +2490,7 @@ static Type check_expression_impl(ASTNode *expr, Environment *env) {
                 const char *enum_name = expr->as.field_access.object->as.identifier;
                 assert(enum_name != NULL);
                 if (!enum_name) {
+                    g_typecheck_error_diagnostics++;
                     safe_fprintf(stderr, "Error at line %d, column %d: NULL enum name in field access\n",
                             expr->line, expr->column);
                     return TYPE_UNKNOWN;
@@ -2501,6 +2503,7 @@ static Type check_expression_impl(ASTNode *expr, Environment *env) {
                     assert(variant_name != NULL);
                     
                     if (!variant_name) {
+                        g_typecheck_error_diagnostics++;
                         safe_fprintf(stderr, "Error at line %d, column %d: NULL variant name in enum access\n",
                                 expr->line, expr->column);
                         return TYPE_UNKNOWN;
@@ -2513,6 +2516,7 @@ static Type check_expression_impl(ASTNode *expr, Environment *env) {
                         }
                     }
                     
+                    g_typecheck_error_diagnostics++;
                     safe_fprintf(stderr, "Error at line %d, column %d: Enum '%s' has no variant '%s'\n",
                             expr->line, expr->column, safe_format_string(enum_name), safe_format_string(variant_name));
                     return TYPE_UNKNOWN;
@@ -2523,6 +2527,7 @@ static Type check_expression_impl(ASTNode *expr, Environment *env) {
             /* Check the object type */
             Type object_type = check_expression(expr->as.field_access.object, env);
             if (object_type != TYPE_STRUCT) {
+                g_typecheck_error_diagnostics++;
                 safe_fprintf(stderr, "Error at line %d, column %d: Field access requires a struct\n",
                         expr->line, expr->column);
                 return TYPE_UNKNOWN;
